@@ -202,7 +202,99 @@ def order_cases(ctx, scale):
     return files, expect
 
 
+def bait_cases():
+    """EXHAUSTIVE interaction family for skip-style shortcuts in the compositor: one layer X whose
+    features are enumerated - where it sits (top level / in a visible group / in a hidden group), the
+    BACKGROUND flag, its own visible flag, cel geometry (exactly the canvas / a 1x1 cel / larger than
+    the canvas / canvas-sized but shifted off it), opaque or translucent pixels, layer opacity 255 / 128, cel opacity 255 / 0 / 77,
+    Normal or Multiply, raw or linked - between an optional translucent layer below and an optional
+    dot above, on a 2x2 canvas."""
+    out = []
+    W = H = 2
+    def cel(layer, x, y, w, h, px, opacity=255):
+        return mk_chunk(0x2005, struct.pack("<HhhBH", layer, x, y, opacity, 0) + bytes(7) + struct.pack("<HH", w, h) + px)
+    def lay(flags, ltype=0, level=0, blend=0, opacity=255):
+        return mk_chunk(0x2004, struct.pack("<HHHHHHBBH", flags, ltype, level, 0, 0, blend, opacity, 0, 0) + struct.pack("<H", 1) + b"L")
+    for container in (0, 1, 2):
+        for bg in (0, 8):
+            for vis in (0, 1):
+                for geo in (0, 1, 2, 3):
+                    for opaque in (0, 1):
+                        for lop in (255, 128):
+                            for cop in (255, 0, 77):
+                                for blend in (0, 1):
+                                    for below in (0, 1):
+                                        for above in (0, 1):
+                                            for linked in (0, 1):
+                                                layers, cels0, cels1 = [], [], []
+                                                if below:
+                                                    layers.append(lay(1))
+                                                    cels0.append(cel(len(layers) - 1, 0, 0, 2, 2, bytes([10, 200, 30, 150]) * 4))
+                                                level = 0
+                                                if container:
+                                                    layers.append(lay(1 if container == 1 else 0, ltype=1))
+                                                    level = 1
+                                                layers.append(lay(vis | bg, level=level, blend=blend, opacity=lop))
+                                                xi = len(layers) - 1
+                                                a = 255 if opaque else 90
+                                                if geo == 0:
+                                                    g = (0, 0, 2, 2)
+                                                elif geo == 1:
+                                                    g = (1, 0, 1, 1)
+                                                elif geo == 2:
+                                                    g = (-1, -1, 4, 4)
+                                                else:
+                                                    g = (-1, -1, 2, 2)        # canvas-sized but shifted: covers (0,0) only
+                                                px = b"".join(bytes([200, (7 * k) % 256, 90, a]) for k in range(g[2] * g[3]))
+                                                cels0.append(cel(xi, g[0], g[1], g[2], g[3], px, cop))
+                                                if above:
+                                                    layers.append(lay(1))
+                                                    cels0.append(cel(len(layers) - 1, 1, 1, 1, 1, bytes([1, 2, 250, 128])))
+                                                frames = mk_frame(layers + cels0)
+                                                nf = 1
+                                                if linked:
+                                                    lk = mk_chunk(0x2005, struct.pack("<HhhBH", xi, 0, 0, 255, 1) + bytes(7) + struct.pack("<H", 0))
+                                                    frames += mk_frame([lk])
+                                                    nf = 2
+                                                cid = f"bait/{container}{bg}{vis}{geo}{opaque}/{lop}-{cop}-{blend}/{below}{above}{linked}"
+                                                out.append((cid, mk_header(nf, W, H) + frames))
+    return out
+
+
+def memo_cases():
+    """cels that repeat the SAME (canvas pixel, cel pixel) pair with different opacities or blend
+    modes one after the other: a result cached across cels or pixels would be reused wrongly"""
+    out = []
+    def cel(layer, x, px, opacity):
+        return mk_chunk(0x2005, struct.pack("<HhhBH", layer, x, 0, opacity, 0) + bytes(7) + struct.pack("<HH", 1, 1) + px)
+    def lay(blend, opacity):
+        return mk_chunk(0x2004, struct.pack("<HHHHHHBBH", 1, 0, 0, 0, 0, blend, opacity, 0, 0) + struct.pack("<H", 1) + b"L")
+    col = bytes([200, 60, 20, 255])
+    for mode in range(19):
+        for (lo1, co1), (lo2, co2) in (((255, 255), (255, 77)), ((255, 77), (255, 255)), ((255, 255), (0, 255)), ((128, 255), (255, 128)), ((255, 0), (255, 255))):
+            for base in (0, 1):
+                layers, cels = [], []
+                if base:
+                    layers.append(lay(0, 255))
+                    cels.append(mk_chunk(0x2005, struct.pack("<HhhBH", 0, 0, 0, 255, 0) + bytes(7) + struct.pack("<HH", 3, 1) + bytes([9, 90, 200, 255]) * 3))
+                k = len(layers)
+                layers += [lay(mode, lo1), lay(mode, lo2), lay((mode + 1) % 19, lo2)]
+                cels += [cel(k, 0, col, co1), cel(k + 1, 1, col, co2), cel(k + 2, 2, col, co2)]
+                out.append((f"memo/{mode}/{lo1}.{co1}-{lo2}.{co2}/{base}", mk_header(1, 3, 1) + mk_frame(layers + cels)))
+    return out
+
+
 def order_extra(ctx, scale, res, files, model_obs, impl_obs):
+    extra = bait_cases() + memo_cases()
+    for profile in ("release", "relchk"):
+        sub = Result()
+        compare_batched(sub, extra, ["frameimg", "celA", "layer"], usable_oracle, verbose=False, profile=profile,
+                        what=f"shortcut bait / repeated pixel pairs [{profile}]",
+                        spec_backed="C02.frameImage_spec / C06.celImage_spec / C09.isVisible_spec with C03.blend_eq_ref")
+        for f in sub.oracle_failures + sub.corr_diffs:
+            f["build_profile"] = profile
+        res.merge(sub)
+    res.distribution["bait sprites"] = len(extra)
     ofiles, expect = order_cases(ctx, scale)
     m, i = run_both(ofiles, verbose=True)
     def orc(cid, data, impl, model):
@@ -362,6 +454,43 @@ def structure_cases():
             for cn, c in cels:
                 # a second frame whose cel links to the first frame's (image, tilemap or nothing)
                 out.append((f"xref2/{tn}/{ln}/{cn}", mk_header(2, 2, 2) + mk_frame(ts + [l] + c) + mk_frame([link])))
+    # chains of linked cels: frame a links to frame 0 (fine), frame b links to frame a (a link to a
+    # link: must be refused at load or be usable); positions around multiples of 32 / 64 and several layer counts
+    raw1 = lambda l: mk_chunk(0x2005, struct.pack("<HhhBH", l, 0, 0, 255, 0) + bytes(7) + struct.pack("<HH", 1, 1) + bytes([1, 2, 3, 255]))
+    lnk = lambda l, f: mk_chunk(0x2005, struct.pack("<HhhBH", l, 0, 0, 255, 1) + bytes(7) + struct.pack("<H", f))
+    for nl in (1, 2, 3):
+        for a in list(range(1, 70)) + [95, 96, 127, 128, 129]:
+            for b in (a + 1, a + 32 // nl if 32 % nl == 0 else a + 2):
+                nf = b + 1
+                fr = [[] for _ in range(nf)]
+                fr[0] = [mk_layer()] * nl + [raw1(nl - 1)]
+                fr[a].append(lnk(nl - 1, 0))
+                fr[b].append(lnk(nl - 1, a))
+                out.append((f"linkchain/{nl}/{a}-{b}", mk_header(nf, 1, 1) + b"".join(mk_frame(f) for f in fr)))
+    # tilesets that only link to an external file (refused), with the external-files entry present or
+    # absent, used by a layer or not; two tileset chunks with the same id in both orders
+    def ts_chunk(tid, flags, ntiles=1, extid=7):
+        body = struct.pack("<IIIHHh", tid, flags, ntiles, 1, 1, 1) + bytes(14) + struct.pack("<H", 0)
+        if flags & 1:
+            body += struct.pack("<II", extid, 0)
+        if flags & 2:
+            z = zlib.compress(bytes([50, 60, 70, 255]) * ntiles)
+            body += struct.pack("<I", len(z)) + z
+        return mk_chunk(0x2023, body)
+    extf = lambda ids: mk_chunk(0x2008, struct.pack("<I", len(ids)) + bytes(8) + b"".join(struct.pack("<I", i) + bytes(8) + struct.pack("<H", 1) + b"f" for i in ids))
+    for flags in (1, 5, 3, 7, 0, 4):
+        for ext in ([], [7], [8]):
+            for user in (0, 1):
+                chunks = ([extf(ext)] if ext else []) + [ts_chunk(0, flags)] + [layer(2 if user else 0, 0)]
+                out.append((f"exttileset/{flags}/{'-'.join(map(str, ext)) or 'none'}/{user}", mk_header(1, 2, 2) + mk_frame(chunks)))
+    for first, second in ((2, 1), (1, 2), (2, 2), (2, 5), (5, 2)):
+        for user in (0, 1):
+            for split in (0, 1):
+                c1 = [ts_chunk(0, first, 1), ] + ([] if split else [ts_chunk(0, second, 2)]) + [layer(2 if user else 0, 0)]
+                if user:
+                    c1.append(tm_cel(1, 1, [0]))
+                c2 = [ts_chunk(0, second, 2)] if split else []
+                out.append((f"tsdup/{first}-{second}/{user}{split}", mk_header(2, 2, 2) + mk_frame(c1) + mk_frame(c2)))
     # user data with nothing to attach to (must be refused), and with only context-neutral chunks before it
     pal = mk_chunk(0x2019, struct.pack("<III", 1, 0, 0) + bytes(8) + struct.pack("<HBBBB", 0, 1, 2, 3, 255))
     prof = mk_chunk(0x2007, struct.pack("<HHI", 1, 0, 0) + bytes(8))
@@ -1024,6 +1153,15 @@ def c18_run(ctx, scale):
         else:
             reqs.append(f"UTIL {cid} extrude {w} {h} {px.hex()}")
         meta[cid] = ("extrude", w, h, px)
+    # widths and heights around internal buffer sizes (powers of two and one or two pixels either side)
+    k = n
+    for w in (255, 256, 257, 1022, 1023, 1024, 1025, 1026, 2047, 2048, 2049, 4095, 4096, 4097):
+        for (ww, hh) in ((w, 1), (1, w)) if w <= 1026 or not ctx.quick else ((w, 1),):
+            px = bytes((i * 31 + w) % 256 for i in range(4 * ww * hh))
+            cid = f"ex{k}"
+            k += 1
+            reqs.append(f"UTIL {cid} extrude {ww} {hh} {px.hex()}")
+            meta[cid] = ("extrude", ww, hh, px)
     # boundary colours (white packs to 0xFFFFFF / 0xFFFFFFFF with alpha, black to 0) + random ones
     colours = [(255, 255, 255), (0, 0, 0)] + [(rng.randrange(256), rng.randrange(256), rng.randrange(256)) for _ in range(4)]
     mreqs_model = []
@@ -1051,7 +1189,24 @@ def c18_run(ctx, scale):
         reqs.append(f"UTIL {cid2} indexed {f.hex()} {failure} {transp} {w} {h} {img.hex()}")
         mreqs_model.append(f"UTIL {cid2}:fwd indexed {f.hex()} {failure} {transp} fwd {w} {h} {img.hex()}")
         meta[cid2] = ("indexed", first, entries, failure, transp, [tuple(img[4 * j:4 * j + 4]) for j in range(w * h)], w, h)
+    # palettes far larger than any index the mapper can return (u16 / u32 counters of entries)
+    nomodel = set()
+    for nbig in (65535 + 256, 65536 + 256, 70000) if not ctx.quick else (65536 + 256,):
+        ents = [((i >> 16) & 255, (i >> 8) & 255, i & 255, 255) for i in range(nbig)]
+        qs = [(0, 0, 5, 255), (0, 0, 255, 255), (0, 1, 0, 255), (0, 255, 255, 255), (1, 1, 1, 255), (0, 0, 5, 100)]
+        cid = f"mapbig{nbig}"
+        reqs.append(f"UTIL {cid} mapper {pal_file(0, ents).hex()} 7 - {bytes(x for q in qs for x in q).hex()}")
+        meta[cid] = ("mapper", 0, ents, 7, "-", qs)
+        nomodel.add(cid)
     impl, _ = vlib.run_impl(reqs)
+    # the same requests in the build with overflow checks and debug assertions
+    impl_chk, _ = vlib.run_impl(reqs, "relchk")
+    for r in reqs:
+        cid = r.split(" ")[1]
+        if impl.get(cid) != impl_chk.get(cid):
+            res.oracle_failures.append({"id": cid, "what": f"the build with overflow checks reports `{str(impl_chk.get(cid))[:200]}` where the "
+                                        f"optimised build reports `{str(impl.get(cid))[:200]}`", "request": r[:600], "build_profile": "relchk",
+                                        "call": "asefile::util, both build profiles"})
     model_reqs = [" ".join(r.split(" ")[:6]) for r in reqs if " extrude " in r] + mreqs_model
     model, _ = vlib.run_model(model_reqs)
 
@@ -1074,13 +1229,13 @@ def c18_run(ctx, scale):
         if mt[0] == "extrude":
             _, w, h, px = mt
             ml = model.get(cid, ["missing"])[0]
-            if ml != line:
-                res.corr_diffs.append({"correspondence": "Ase.Util.extrudeBorder <-> util::extrude_border",
-                                       "id": cid, "request": [w, h, px.hex()], "model": ml[:300], "impl": line[:300]})
             parts = line.split(":")
-            if not line.startswith(f"extrude {w + 2}x{h + 2}:") or len(parts) < 4:
+            if not line.startswith(f"extrude {w + 2}x{h + 2}:"):
                 fail = "wrong dimensions or failure: " + line[:80]
-            else:
+            elif ml != line:
+                # the model's image IS the specified image (theorem C18.extrude_spec)
+                fail = f"the implementation returns `{line[:120]}` where the property specifies `{ml[:120]}` (model value, proved by C18.extrude_spec)"
+            elif len(parts) >= 4:
                 out = bytes.fromhex(parts[3])
                 for y in range(h + 2):
                     for x in range(w + 2):
@@ -1098,7 +1253,7 @@ def c18_run(ctx, scale):
                 for q, v in zip(qs, got):
                     if v not in allowed(first, entries, failure, transp, q):
                         fail = f"lookup{q} = {v}, allowed {sorted(allowed(first, entries, failure, transp, q))}"
-                for sfx in (":fwd", ":rev"):
+                for sfx in ((":fwd", ":rev") if cid not in nomodel else ()):
                     ml = model.get(cid + sfx, ["missing"])[0]
                     mg = [int(x) for x in ml[7:].split(",")] if ml.startswith("mapper ") else None
                     if mg is None or any(v not in allowed(first, entries, failure, transp, q) for q, v in zip(qs, mg)):
@@ -1124,7 +1279,7 @@ def c18_run(ctx, scale):
     return res
 
 
-register("C18", c18_run)
+register("C18", c18_run, profiles=("release", "relchk"))
 
 
 # ------------------------------------------------------------------------------------------
@@ -1151,12 +1306,24 @@ def c13_run(ctx, scale):
     rng = random.Random(ctx.seed * 271 + scale)
     base = small_wf_files(ctx, scale, (30 if ctx.quick else 400) * scale)
     base += [(c, b) for c, b in vlib.verif_corpus_wf() if len(b) < 3000]
+    # frames with hundreds of chunks
+    big, _ = vlib.gen_cases("large", ctx.seed * 41 + scale, 2 if ctx.quick else 12)
+    base += [(c, b) for c, b in big if len(b) < 600000]
     files = []
     for cid, b in base:
         end = end_of_last_frame(b)
         if end is None or end > len(b):
             continue
-        if ctx.quick:
+        if len(b) > 20000:
+            # large files (hundreds of chunks per frame): cuts inside the last frame, mostly near its end
+            pieces = vlib.walk_chunks(b)
+            cuts = set(range(max(0, end - 80), end))
+            for kind, off, ln in pieces[-40:]:
+                cuts.update(range(max(0, off - 1), min(end, off + 8)))
+            for kind, off, ln in rng.sample(pieces, min(len(pieces), 60 if ctx.quick else 400)):
+                cuts.add(min(end - 1, off + rng.randrange(0, max(1, ln))))
+            cuts.update(rng.randrange(end) for _ in range(20))
+        elif ctx.quick:
             cuts = set(range(0, min(end, 160)))
             for kind, off, ln in vlib.walk_chunks(b):
                 cuts.update(range(max(0, off - 1), min(end, off + 8)))
@@ -1331,6 +1498,19 @@ def hostile_memory_inputs(ctx, scale):
         cel = mk_chunk(0x2005, struct.pack("<HhhBH", 0, 0, 0, 255, 3) + bytes(7)
                        + struct.pack("<HHHIIII", w, h, 32, 0x1fffffff, 0x20000000, 0x40000000, 0x80000000) + bytes(10) + z)
         out.append((f"bomb-tilemap/{w}x{h}", mk_header(1, 4, 4) + mk_frame([tileset, layer, cel])))
+    # frame headers whose byte count and both chunk counts are raised TOGETHER
+    for nb in (0x10000000, 0xFFFFFFFF, 0x7FFFFFFF):
+        for cnt in (0x01000000, 0xFFFFFFFF, 0x00100000):
+            hdr = struct.pack("<IHHHHI", nb, 0xF1FA, 0xFFFF, 100, 0, cnt)
+            out.append((f"framehdr/{nb:x}/{cnt:x}", mk_header(1, 4, 4) + hdr))
+            out.append((f"framehdr+layer/{nb:x}/{cnt:x}", mk_header(1, 4, 4) + hdr + mk_layer()))
+    # a stream that really inflates to more than 1 MiB under a declared size that is far larger
+    zmid = zlib.compress(bytes(1310720), 9)
+    for dw, dh in ((8192, 8192), (65535, 65535), (20000, 3)):
+        celb = mk_chunk(0x2005, struct.pack("<HhhBH", 0, 0, 0, 255, 2) + bytes(7) + struct.pack("<HH", dw, dh) + zmid)
+        out.append((f"bomb-large-decl/{dw}x{dh}", mk_header(1, 4, 4) + mk_frame([mk_layer(), celb])))
+        tsb = mk_chunk(0x2023, struct.pack("<IIIHHh", 0, 2, dh, dw, 1, 1) + bytes(14) + struct.pack("<H", 0) + struct.pack("<I", len(zmid)) + zmid)
+        out.append((f"bomb-large-decl-tileset/{dw}x{dh}", mk_header(1, 4, 4) + mk_frame([tsb, mk_layer()])))
     # one large compressible cel and many frames linking to it (links must stay links)
     zb = zlib.compress(bytes([7, 7, 7, 255]) * (2048 * 2048), 9)
     f0 = mk_frame([mk_layer(), mk_chunk(0x2005, struct.pack("<HhhBH", 0, 0, 0, 255, 2) + bytes(7) + struct.pack("<HH", 2048, 2048) + zb)])
@@ -1454,7 +1634,7 @@ register("C12", c12_run)
 # ------------------------------------------------------------------------------------------
 # C07: encodings of the same sprite
 
-def recompress(b, level):
+def recompress(b, level, wbits=15):
     """rewrite the zlib payload of every compressed cel (type 2) with another compression level;
     chunk and frame sizes are adjusted; the meaning is unchanged"""
     import zlib
@@ -1473,7 +1653,8 @@ def recompress(b, level):
                 d = zlib.decompressobj()
                 raw = d.decompress(payload[20:])
                 pad = d.unused_data
-                payload = payload[:20] + zlib.compress(raw, level) + pad
+                co = zlib.compressobj(level, zlib.DEFLATED, wbits)
+                payload = payload[:20] + co.compress(raw) + co.flush() + pad
             chunks.append(struct.pack("<IH", 6 + len(payload), ty) + payload)
             q += sz
         body = b"".join(chunks)
@@ -1509,6 +1690,19 @@ def c07_run(ctx, scale):
                     extra.append((cid[:-2] + f"-z{level}", recompress(b, level)))
                 except Exception:
                     pass
+            # zlib streams written for a smaller window (first header byte 0x08..0x68)
+            for wb in ((9, 12) if ctx.quick else range(9, 15)):
+                try:
+                    extra.append((cid[:-2] + f"-zw{wb}", recompress(b, 6, wb)))
+                except Exception:
+                    pass
+            # bytes after the last frame, among them a stale copy of the last frame / of its header
+            fr = [off for kind, off, ln in vlib.walk_chunks(b) if kind == "frame"]
+            end = end_of_last_frame(b)
+            if fr and end is not None and end <= len(b):
+                last = b[fr[-1]:end]
+                for tn, tr in (("frame", last), ("fhdr", last[:10]), ("file", b), ("magic", bytes(4) + b"\xfa\xf1" + bytes(10))):
+                    extra.append((cid[:-2] + f"-trail{tn}", b + tr))
     if extra:
         m2, _ = vlib.run_model(vlib.load_lines(extra))
         cases.update(m2)
@@ -1516,6 +1710,20 @@ def c07_run(ctx, scale):
     impl, _ = vlib.run_impl(vlib.load_lines(files))
     compare_cases(res, files, cases, impl, ALL, must_load_oracle, what="whole-API observation",
                   spec_backed="C01.decode_encode + C07.encoding_choices_irrelevant")
+    # a large solid-colour cel: deflate reaches its maximal ratio (about 1030:1) at levels >= 6
+    if scale == 1:
+        import zlib
+        w, h = 2048, 1024
+        px = bytes([40, 90, 200, 255]) * (w * h)
+        solid = []
+        for tag, body, ctype in [("raw", px, 0)] + [(f"z{l}", zlib.compress(px, l), 2) for l in (1, 6, 9)]:
+            cel = mk_chunk(0x2005, struct.pack("<HhhBH", 0, -5, -7, 255, ctype) + bytes(7) + struct.pack("<HH", w, h) + body)
+            solid.append((f"solid/2048x1024-{tag}", mk_header(1, 4, 3) + mk_frame([mk_layer(), cel])))
+        ms, is_ = run_both(solid)
+        compare_cases(res, solid, ms, is_, ALL, must_load_oracle, what="a 2048x1024 solid cel, raw and at zlib levels 1, 6, 9",
+                      spec_backed="C01.decode_encode + C07.encoding_choices_irrelevant")
+        files += solid
+        impl.update(is_)
     groups = {}
     for cid, b in files:
         groups.setdefault(cid.rsplit("-", 1)[0], []).append((cid, b))
@@ -1790,10 +1998,44 @@ def c16_run(ctx, scale):
                         changed = True
                     p += 3 * cnt
         return bytes(bb) if changed else None
-    for k, (cb, b) in enumerate(loadable_idx):
+    # the same sprite with every palette entry NAME changed (colours equal), kept alive meanwhile
+    def rename(b):
+        bb = bytearray(b)
+        changed = False
+        for kind, off, sz in vlib.walk_chunks(b):
+            if kind == "chunk:2019" and sz >= 26:
+                n = struct.unpack_from("<I", b, off + 6)[0]
+                p = off + 6 + 20
+                for _ in range(min(n, 4096)):
+                    if p + 6 > off + sz:
+                        break
+                    flags = struct.unpack_from("<H", b, p)[0]
+                    p += 6
+                    if flags & 1:
+                        if p + 2 > off + sz:
+                            break
+                        ln = struct.unpack_from("<H", b, p)[0]
+                        for j in range(p + 2, min(p + 2 + ln, off + sz)):
+                            if 0x41 <= bb[j] <= 0x5a or 0x61 <= bb[j] <= 0x7a:
+                                bb[j] ^= 0x20
+                                changed = True
+                            elif 0x30 <= bb[j] <= 0x38:
+                                bb[j] += 1
+                                changed = True
+                        p += 2 + ln
+        return bytes(bb) if changed else None
+    keep_ids = set()
+    for k, (cb, b) in enumerate(loadable_idx + [f for f in files if f not in loadable_idx][:60]):
         a = recolour(b)
-        if a is not None:
+        if a is not None and k < len(loadable_idx):
             hist[f"histc/{k}"] = (cb + "(recoloured)", a, cb, b)
+        r = rename(b)
+        if r is not None:
+            hist[f"histn/{k}"] = (cb + "(palette names changed, kept alive)", r, cb, b)
+            keep_ids.add(f"histn/{k}")
+        if k % 3 == 0 and a is not None:
+            hist[f"histk/{k}"] = (cb + "(recoloured, kept alive)", a, cb, b)
+            keep_ids.add(f"histk/{k}")
     other = [f for f in files if f not in idx_files][:40]
     for k in range(len(other)):
         (ca, a), (cb, b) = other[k], other[(k + 1) % len(other)]
@@ -1816,7 +2058,7 @@ def c16_run(ctx, scale):
     for k, (ca, a) in enumerate(bad):
         cb, b = good[k % len(good)]
         hist[f"histbad/{k}"] = (ca, a, cb, b)
-    hreqs = [f"HISTORY {hid} {a.hex()} {b.hex()}" for hid, (ca, a, cb, b) in hist.items()]
+    hreqs = [f"HISTORY {hid} {a.hex()} {b.hex()}" + (" keep" if hid in keep_ids else "") for hid, (ca, a, cb, b) in hist.items()]
     outs = {}
     houts = {}
     for profile in ("release", "relchk"):
